@@ -62,9 +62,11 @@ CopyConstruct(o) == /\ Two /\ st[o] = "none" /\ Live(Other(o))
                     /\ Set(o, arr[Other(o)]) /\ UNCHANGED limbo
 CopyAssign(o) == /\ Two /\ st[o] # "none" /\ Live(Other(o))
                  /\ Set(o, arr[Other(o)]) /\ limbo' = [limbo EXCEPT ![o] = <<>>]
+\* B(std::move(A)): the contents move; nothing of the new object existed before, so the source is left EMPTY and remains
+\* an ordinary, usable array (after a move ASSIGNMENT it may instead still own what the target held: "moved" + limbo)
 MoveConstruct(o) == /\ Two /\ st[o] = "none" /\ Live(Other(o))
                     /\ arr' = [arr EXCEPT ![o] = arr[Other(o)], ![Other(o)] = <<>>]
-                    /\ st' = [st EXCEPT ![o] = "live", ![Other(o)] = "moved"]
+                    /\ st' = [st EXCEPT ![o] = "live"]
                     /\ UNCHANGED limbo
 MoveAssign(o) == /\ Two /\ st[o] # "none" /\ Live(Other(o))
                  /\ arr' = [arr EXCEPT ![o] = arr[Other(o)], ![Other(o)] = <<>>]
